@@ -59,6 +59,7 @@ type cVar struct {
 	RH    bool   `json:"rh"`   // a custom ReturnHandler is mapped in the injector: it replaces the default table
 	Der   bool   `json:"der"`  // "C" installs a derived request context first and cancels that one
 	WK    int    `json:"wk"`   // how "W" touches the response: 0 always WriteHeader(200+h); else per handler WriteHeader / Write(bytes) / Write(nil) / Flush() / io.Copy / WriteHeader(1xx)
+	MapW  bool   `json:"mapw"` // a first middleware maps its own flamego.ResponseWriter wrapper as http.ResponseWriter
 	Upg   bool   `json:"upg"`  // the request asks for a protocol upgrade (Connection: Upgrade), as a WebSocket handshake does
 	Form  int    `json:"form"` // > 0: handlers whose program needs no Context are declared without one (net/http forms, func() T)
 	DL    bool   `json:"dl"`   // ... and that derived context ends by an expired deadline (the timeout-middleware case) rather than by cancel()
@@ -607,6 +608,7 @@ func chainVarFor(c *chainCase, idx int) cVar {
 	v.WK = rng.Intn(7)
 	v.Form = rng.Intn(2)
 	v.Upg = rng.Intn(5) == 0
+	v.MapW = rng.Intn(4) == 0
 	v.RH = rng.Intn(5) == 0
 	if !v.RH && rng.Intn(5) == 0 {
 		v.RHL = true
@@ -677,7 +679,15 @@ func chainReplay(raw json.RawMessage, idx int, tr *traceWriter) {
 	}
 	// the middleware is handed over in a slice of the caller's own (with spare capacity); afterwards the caller scribbles
 	// over that slice - what the application runs is what it was given at the time of the call
-	mwArg := append(make([]flamego.Handler, 0, v.Mw+3), hs[:v.Mw]...)
+	mwArg := append(make([]flamego.Handler, 0, v.Mw+4), hs[:v.Mw]...)
+	if v.MapW {
+		// a silent middleware in front of everything maps a response writer of its OWN as http.ResponseWriter (what a
+		// compressing / buffering middleware does, with the documented NewResponseWriter construct); the handlers of this
+		// harness keep writing through the writer of the context - whether the response has begun is a fact about that one
+		mwArg = append([]flamego.Handler{func(c flamego.Context) {
+			c.MapTo(flamego.NewResponseWriter(c.Request().Method, c.ResponseWriter()), (*http.ResponseWriter)(nil))
+		}}, mwArg...)
+	}
 	if v.HS {
 		f.Use(func() { panic("replaced by Handlers()") }) // must be gone after Handlers()
 		f.Handlers(mwArg...)
